@@ -18,6 +18,7 @@ package streams
 import (
 	"net/http"
 	"strings"
+	"sync/atomic"
 
 	"github.com/richiefi/rrrouter/config"
 	"github.com/richiefi/rrrouter/proxy"
@@ -59,6 +60,9 @@ type srNode struct {
 	Intended int
 	RuleIdx  int // index of this node's own rule in the rule list, -1 = none
 }
+
+// srUnanswered counts, per harness process, the requests that got no response at all
+var srUnanswered int32
 
 type srCase struct {
 	Rules  []hx.RuleSpec
@@ -229,11 +233,25 @@ func (c srCase) script() func(*http.Request) *sysx.OriginResp {
 	for _, h := range c.Known {
 		known[h] = true
 	}
+	// When EVERY rule of the case restarts on redirect, no redirect answer is ever handed to the client (it is followed, or
+	// the request ends in 508 / an error): its body is never needed. In one case out of eight of those the redirect answers
+	// announce a body that never arrives (the destination stalls after the header block): a function of the case, not drawn;
+	// the model knows nothing of it (seeded change C18-m8: an unbounded drain of the redirect's body before following it).
+	allRestart := len(c.Rules) > 0
+	for _, r := range c.Rules {
+		allRestart = allRestart && r.RestartOnRedirect && r.Retry == nil && !r.IsCopy()
+	}
+	// (a server that drains such a body never answers: every case of that kind costs the client's whole deadline, so after three
+	// unanswered requests in this process the stalls are switched off - three witnesses are enough)
+	stall := allRestart && (len(c.Target)+len(c.Nodes)+len(c.Nodes[0].Location))%8 == 0 && atomic.LoadInt32(&srUnanswered) < 3
 	resps := map[string]*sysx.OriginResp{}
 	for _, n := range c.Nodes {
 		r := &sysx.OriginResp{Status: n.Status, Body: []byte(n.Body), ReadErrAt: -1}
 		if n.HasLoc {
 			r.Header = append(r.Header, [2]string{"Location", n.Location})
+		}
+		if stall && n.Redirect && n.HasLoc && len(n.Body) > 0 {
+			r.StallBody = true
 		}
 		resps[n.Path] = r
 	}
@@ -279,6 +297,7 @@ func (c srCase) run(stream string, id int) hx.Case {
 		v := w.Do(SysReq{Method: "GET", Target: c.Target, Host: c.Host}.Raw(), false)
 		cs := w.Perf.Take()
 		if v.Framing == "noresponse" {
+			atomic.AddInt32(&srUnanswered, 1)
 			// the raw client's deadline expired (or the connection was dropped): never expected
 			return append([]string{"noresponse"}, srContactTokens(cs[:srMin(len(cs), srShown)])...)
 		}
